@@ -7,7 +7,9 @@
 From Coq Require Import ZArith String List Bool Lia ZifyBool.
 From PushModel Require Import Base.Sx Base.Machine Base.ListOps Base.F32 Model.Item Model.GraphT Model.State
   Model.InstrBase Model.IScalar Model.ICode Model.IVector Model.IList Model.IIo Model.IGraph
-  Model.Registry Model.Interp Model.RegistryVec Model.RegistryListIo Model.RegistryGraph Model.RegistryAll
+  Model.Topology Model.INeighbor Model.RandomGen Model.IRand
+  Model.Registry Model.Interp Model.RegistryVec Model.RegistryListIo Model.RegistryGraph Model.RegistryNbr
+  Model.RegistryRand Model.RegistryAll
   Spec.DetSpec Proofs.NameProofs Proofs.DeterminismItems Proofs.DeterminismInv Proofs.DeterminismWalk
   Proofs.DeterminismProfile.
 Import ListNotations.
@@ -36,6 +38,14 @@ Proof.
   - intros (-> & _ & ->). reflexivity.
   - intros [-> ->]. reflexivity.
 Qed.
+
+(* the entries whose result can depend on the build profile:
+   CODE.INSERT        (usize subtraction in Item::insert; agrees for i32 operands, below)
+   LIST.NEIGHBOR*     (powf(d, 2.0) vs d * d in Topology; agree under C20_profile_independent's condition)
+   BOOLVECTOR.RAND    (`num_active_bits + 1` is a checked i32 addition) *)
+Definition profile_exceptions : list string :=
+  [ "CODE.INSERT"; "LIST.NEIGHBOR*IDS"; "LIST.NEIGHBOR*BVALS"; "LIST.NEIGHBOR*IVALS"; "LIST.NEIGHBOR*FVALS";
+    "BOOLVECTOR.RAND" ].
 
 (* ---------------------------------------------------------------------- *)
 (* (1) pure entries ignore the world; which entries ignore the profile *)
@@ -69,8 +79,8 @@ Section Sems.
   Theorem pure_sems_ignore_world :
     Forall (fun e => world_reading (fst e) = false -> ignores_world (snd e)) full_table.
   Proof.
-    unfold full_table, tbl_core, tbl_boolean, tbl_integer, tbl_float, tbl_name, tbl_code, tbl_exec, tbl_index,
-      tbl_bvec, tbl_ivec, tbl_fvec, vec_stack_family, stack_family, tbl_list, tbl_io, tbl_graph.
+    unfold full_table, base_table, tbl_core, tbl_boolean, tbl_integer, tbl_float, tbl_name, tbl_code, tbl_exec, tbl_index,
+      tbl_bvec, tbl_ivec, tbl_fvec, vec_stack_family, stack_family, tbl_list, tbl_io, tbl_graph, tbl_nbr, tbl_rand.
     cbn [map all_ginstr ginstr_name ginstr_sem].
     walk_with world_entry.
   Qed.
@@ -82,14 +92,14 @@ Section Sems.
     cbn [fst snd];
     first [ intros _ w s; reflexivity
           | intros _; exact purep_extract_blind
-          | let H := fresh in intros H; exfalso; apply H; reflexivity ].
+          | let H := fresh in intros H; vm_compute in H; discriminate H ].
 
-  (* every entry but CODE.INSERT is blind to the profile, on every state *)
+  (* every entry outside [profile_exceptions] is blind to the profile, on every state *)
   Theorem sems_profile_blind :
-    Forall (fun e => fst e <> "CODE.INSERT" -> profile_blind (snd e)) full_table.
+    Forall (fun e => lit_in profile_exceptions (fst e) = false -> profile_blind (snd e)) full_table.
   Proof.
-    unfold full_table, tbl_core, tbl_boolean, tbl_integer, tbl_float, tbl_name, tbl_code, tbl_exec, tbl_index,
-      tbl_bvec, tbl_ivec, tbl_fvec, vec_stack_family, stack_family, tbl_list, tbl_io, tbl_graph.
+    unfold full_table, base_table, tbl_core, tbl_boolean, tbl_integer, tbl_float, tbl_name, tbl_code, tbl_exec, tbl_index,
+      tbl_bvec, tbl_ivec, tbl_fvec, vec_stack_family, stack_family, tbl_list, tbl_io, tbl_graph, tbl_nbr, tbl_rand.
     cbn [map all_ginstr ginstr_name ginstr_sem].
     walk_with profile_entry.
   Qed.
@@ -98,6 +108,29 @@ Section Sems.
   Theorem insert_profile_blind w s : insert_operand_ok s ->
     purep code_insert Debug w s = purep code_insert Release w s.
   Proof. intros H. unfold purep. now rewrite (code_insert_profile Release s H). Qed.
+
+  (* LIST.NEIGHBOR*: blind whenever the neighbourhood search itself is (C20_profile_independent) *)
+  Definition nbr_operands_agree (vals : bool) (s : state) : Prop :=
+    match (if vals then tl (st_int s) else st_int s), st_float s with
+    | t2 :: t1 :: t0 :: _, fv :: _ => nbr_call Debug t2 t1 t0 fv = nbr_call Release t2 t1 t0 fv
+    | _, _ => True
+    end.
+  Theorem neighbor_ids_profile_blind w s : nbr_operands_agree false s ->
+    purep list_neighbor_ids Debug w s = purep list_neighbor_ids Release w s.
+  Proof.
+    unfold nbr_operands_agree, purep, list_neighbor_ids. cbn [tl].
+    destruct (st_int s) as [|t2 [|t1 [|t0 r]]]; try reflexivity.
+    replace (st_float (set_int s r)) with (st_float s) by (destruct s; reflexivity).
+    destruct (st_float s) as [|fv fr]; [reflexivity|]. intros ->. reflexivity.
+  Qed.
+  Theorem neighbor_vals_profile_blind {A} (f : item -> Z -> A) push w s : nbr_operands_agree true s ->
+    purep (list_neighbor_vals f push) Debug w s = purep (list_neighbor_vals f push) Release w s.
+  Proof.
+    unfold nbr_operands_agree, purep, list_neighbor_vals.
+    destruct (st_int s) as [|t3 [|t2 [|t1 [|t0 r]]]]; try reflexivity. cbn [tl].
+    replace (st_float (set_int s r)) with (st_float s) by (destruct s; reflexivity).
+    destruct (st_float s) as [|fv fr]; [reflexivity|]. intros ->. reflexivity.
+  Qed.
 End Sems.
 
 (* ---------------------------------------------------------------------- *)
@@ -119,12 +152,14 @@ Proof.
   - subst. apply str_eqb_refl.
 Qed.
 
-Lemma world_reading_name_in nm : name_in world_reading_names (s2l nm) = false -> world_reading nm = false.
+Lemma lit_in_name_in names nm : name_in names (s2l nm) = false -> lit_in names nm = false.
 Proof.
-  intros H. destruct (world_reading nm) eqn:E; [|reflexivity].
-  unfold world_reading in E. apply existsb_exists in E as (m & Hm & Em). apply String.eqb_eq in Em. subst m.
-  assert (name_in world_reading_names (s2l nm) = true) by (apply name_in_spec; eauto). congruence.
+  intros H. destruct (lit_in names nm) eqn:E; [|reflexivity].
+  unfold lit_in in E. apply existsb_exists in E as (m & Hm & Em). apply String.eqb_eq in Em. subst m.
+  assert (name_in names (s2l nm) = true) by (apply name_in_spec; eauto). congruence.
 Qed.
+Lemma world_reading_name_in nm : name_in world_reading_names (s2l nm) = false -> world_reading nm = false.
+Proof. apply lit_in_name_in. Qed.
 
 (* ---------------------------------------------------------------------- *)
 (* (2) one interpreter step keeps the invariant *)
@@ -136,6 +171,7 @@ Section Step.
   Variables qi qn : str -> bool.
   Hypothesis HR : rearm_ok qi.
   Hypothesis HS : synth_ok qi qn.
+  Hypothesis HX : except_ok qi.
 
   Lemma push_lit_sinv s v : sinv qi qn s -> sinv qi qn (push_lit s v).
   Proof. intros I. destruct v; exact I. Qed.
@@ -155,7 +191,12 @@ Section Step.
       + destruct (lookup_in_named _ _ _ L) as (k & Hin & ->).
         match type of H with (let! r := ?c in _) = _ => destruct c as [[w1 s1]| |] eqn:Ef end;
           cbn [rbind fst snd] in H; try discriminate. inversion H; subst.
-        pose proof (proj1 (Forall_forall _ _) full_table_keeps _ Hin) as K.
+        assert (NX : closure_exception k = false).
+        { destruct (closure_exception k) eqn:EX; [|reflexivity]. exfalso.
+          unfold closure_exception, lit_in in EX. apply existsb_exists in EX as (m & Hm & Em).
+          apply String.eqb_eq in Em. subst m. unfold except_ok in HX. rewrite Forall_forall in HX.
+          specialize (HX _ Hm). unfold iok in Ht. cbn [occurs] in Ht. congruence. }
+        pose proof (proj1 (Forall_forall _ _) full_table_keeps _ Hin NX) as K.
         refine (K qi qn HR _ p w _ _ _ _ Ef); [|unfold sinv; st_cbn; repeat split; assumption].
         cbn [fst]. intros Hsyn. destruct HS as [HS1|HS1]; [exact HS1|].
         exfalso. unfold name_synth in Hsyn. apply existsb_exists in Hsyn as (m & Hm & Em).
@@ -206,6 +247,7 @@ Section Agree.
   Context {FO : FloatOps}.
   Variable qi : str -> bool.
   Hypothesis HR : rearm_ok qi.
+  Hypothesis HX : except_ok qi.
   Variables p1 p2 : profile.
   Variable W : world -> world -> Prop.
 
@@ -248,7 +290,7 @@ Section Agree.
                (step p2 full_registry w2 s) as [[[f2 w2'] s2]| |] eqn:E2; cbn in A; cbn [rbind]; try (cbn; tauto).
       destruct A as (A1 & A2 & A3). cbn in A1, A2, A3. subst f2 s2.
       destruct f1; [cbn; unfold out_rel; cbn; auto|].
-      apply IH; [assumption|]. eapply step_keeps; [exact HR|exact nowhere_synth_ok|exact I|exact E1].
+      apply IH; [assumption|]. eapply step_keeps; [exact HR|exact nowhere_synth_ok|exact HX|exact I|exact E1].
   Qed.
 
   Lemma run_loop_agree clock fuel : forall c w1 w2 s, W w1 w2 -> sinv qi nowhere s ->
@@ -264,7 +306,7 @@ Section Agree.
       destruct A as (A1 & A2 & A3). cbn in A1, A2, A3. subst f2 s2.
       destruct f1; [cbn; unfold out_rel; cbn; auto|].
       destruct (_ <? _)%Z; [cbn; unfold out_rel; cbn; auto|].
-      apply IH; [assumption|]. eapply step_keeps; [exact HR|exact nowhere_synth_ok|exact I|exact E1].
+      apply IH; [assumption|]. eapply step_keeps; [exact HR|exact nowhere_synth_ok|exact HX|exact I|exact E1].
   Qed.
 
   Lemma run_agree clock w1 w2 s : W w1 w2 -> sinv qi nowhere s ->
@@ -283,7 +325,16 @@ Proof. intros H. unfold rearm_ok. apply Forall_forall. exact H. Qed.
 Lemma rearm_ok_world : rearm_ok (name_in world_reading_names).
 Proof. unfold rearm_ok, rearm_names. repeat constructor. Qed.
 
-Definition profile_names : list string := [ "CODE.INSERT" ].
+Lemma except_ok_world : except_ok (name_in world_reading_names).
+Proof. unfold except_ok, closure_exceptions. repeat constructor. Qed.
+
+(* whole executions are profile-independent for states that mention neither a
+   profile exception nor CODE.RAND (which could build one) *)
+Definition profile_names : list string := profile_exceptions ++ closure_exceptions.
+Lemma except_ok_profile : except_ok (name_in profile_names).
+Proof. unfold except_ok, closure_exceptions. repeat constructor. Qed.
+Lemma except_ok_both : except_ok (name_in (world_reading_names ++ profile_names)).
+Proof. unfold except_ok, closure_exceptions. repeat constructor. Qed.
 Lemma rearm_ok_profile : rearm_ok (name_in profile_names).
 Proof. unfold rearm_ok, rearm_names. repeat constructor. Qed.
 Lemma rearm_ok_both : rearm_ok (name_in (world_reading_names ++ profile_names)).
@@ -292,9 +343,10 @@ Proof. unfold rearm_ok, rearm_names. repeat constructor. Qed.
 Lemma name_in_app a b n : name_in (a ++ b) n = name_in a n || name_in b n.
 Proof. unfold name_in. apply existsb_app. Qed.
 
-Lemma profile_name_in nm : name_in profile_names (s2l nm) = false -> nm <> "CODE.INSERT".
+Lemma profile_name_in nm : name_in profile_names (s2l nm) = false -> lit_in profile_exceptions nm = false.
 Proof.
-  intros H E. subst nm. assert (name_in profile_names (s2l "CODE.INSERT") = true) by reflexivity. congruence.
+  intros H. apply lit_in_name_in. unfold profile_names in H. rewrite name_in_app in H.
+  now apply orb_false_iff in H as [H _].
 Qed.
 
 Section Main.
@@ -339,16 +391,17 @@ Section Main.
     no_world_reading s -> step p full_registry w s = Ok (fin, w', s') -> no_world_reading s'.
   Proof.
     intros p w s fin w' s' N H. unfold no_world_reading in *. apply mentions_sinv in N. apply mentions_sinv.
-    eapply step_keeps; [exact rearm_ok_world|left; reflexivity|exact N|exact H].
+    eapply step_keeps; [exact rearm_ok_world|left; reflexivity|exact except_ok_world|exact N|exact H].
   Qed.
 
   (* the general form: the set of instruction names of the state gains at most the re-arm names *)
   Theorem instr_names_closed_general : forall p w s fin w' s' n,
+    instr_name_in_state s (s2l "CODE.RAND") = false ->
     step p full_registry w s = Ok (fin, w', s') ->
     instr_name_in_state s' n = true ->
     instr_name_in_state s n = true \/ name_in rearm_names n = true.
   Proof.
-    intros p w s fin w' s' n H Hn.
+    intros p w s fin w' s' n HCR H Hn.
     set (qi := fun m => negb (instr_name_in_state s m || name_in rearm_names m)).
     assert (HRq : rearm_ok qi).
     { unfold rearm_ok. apply Forall_forall. intros m Hm. unfold qi.
@@ -358,7 +411,9 @@ Section Main.
     { apply sinv_iff. destruct (occurs_state qi nowhere s) eqn:E; [|reflexivity].
       destruct (occurs_state_witness _ _ E) as (m & Hm & Ho). unfold qi in Hm.
       unfold instr_name_in_state in Hm. unfold is_name in Ho. rewrite Ho in Hm. discriminate. }
-    pose proof (step_keeps qi nowhere HRq (or_introl (fun _ => eq_refl)) _ _ _ _ _ _ I H) as I'.
+    assert (HXq : except_ok qi).
+    { unfold except_ok, closure_exceptions. constructor; [|constructor]. unfold qi. now rewrite HCR. }
+    pose proof (step_keeps qi nowhere HRq (or_introl (fun _ => eq_refl)) HXq _ _ _ _ _ _ I H) as I'.
     apply sinv_iff in I'.
     destruct (qi n) eqn:Eq.
     - exfalso. unfold instr_name_in_state in Hn.
@@ -373,7 +428,7 @@ Section Main.
   Proof.
     intros p w1 w2 k s N. apply mentions_sinv in N.
     apply (res_rel_drop_world (fun _ _ => True)).
-    exact (steps_agree _ rearm_ok_world p p (fun _ _ => True) (world_agree p) k w1 w2 s I N).
+    exact (steps_agree _ rearm_ok_world except_ok_world p p (fun _ _ => True) (world_agree p) k w1 w2 s I N).
   Qed.
 
   Theorem world_independent_run : forall p clock w1 w2 s, no_world_reading s ->
@@ -381,14 +436,14 @@ Section Main.
   Proof.
     intros p clock w1 w2 s N. apply mentions_sinv in N.
     apply (res_rel_drop_world (fun _ _ => True)).
-    exact (run_agree _ rearm_ok_world p p (fun _ _ => True) (world_agree p) clock w1 w2 s I N).
+    exact (run_agree _ rearm_ok_world except_ok_world p p (fun _ _ => True) (world_agree p) clock w1 w2 s I N).
   Qed.
 
   Theorem profile_independent_steps : forall w k s, mentions_b profile_names s = false ->
     steps Debug full_registry k w s = steps Release full_registry k w s.
   Proof.
     intros w k s N. apply mentions_sinv in N.
-    pose proof (steps_agree _ rearm_ok_profile Debug Release eq profile_agree k w w s eq_refl N) as A.
+    pose proof (steps_agree _ rearm_ok_profile except_ok_profile Debug Release eq profile_agree k w w s eq_refl N) as A.
     destruct (steps Debug full_registry k w s) as [[[f1 w1] s1]| |],
              (steps Release full_registry k w s) as [[[f2 w2] s2]| |]; cbn in A; try tauto.
     - destruct A as (A1 & A2 & A3). cbn in *. now subst.
@@ -399,7 +454,7 @@ Section Main.
     run Debug full_registry clock w s = run Release full_registry clock w s.
   Proof.
     intros clock w s N. apply mentions_sinv in N.
-    pose proof (run_agree _ rearm_ok_profile Debug Release eq profile_agree clock w w s eq_refl N) as A.
+    pose proof (run_agree _ rearm_ok_profile except_ok_profile Debug Release eq profile_agree clock w w s eq_refl N) as A.
     destruct (run Debug full_registry clock w s) as [[[f1 w1] s1]| |],
              (run Release full_registry clock w s) as [[[f2 w2] s2]| |]; cbn in A; try tauto.
     - destruct A as (A1 & A2 & A3). cbn in *. now subst.
@@ -414,7 +469,7 @@ Section Main.
     intros p1 p2 clock w1 w2 s N. apply mentions_sinv in N.
     assert (DR : forall w1 w2, drop_world (run Debug full_registry clock w1 s) = drop_world (run Release full_registry clock w2 s)).
     { intros a b. apply (res_rel_drop_world (fun _ _ => True)).
-      exact (run_agree _ rearm_ok_both Debug Release (fun _ _ => True) both_agree clock a b s I N). }
+      exact (run_agree _ rearm_ok_both except_ok_both Debug Release (fun _ _ => True) both_agree clock a b s I N). }
     destruct p1, p2; try apply DR.
     - rewrite (DR w1 w2). symmetry. apply DR.
     - symmetry. apply DR.
